@@ -18,6 +18,28 @@ from .loader import AnalysisError, FuncInfo, Program, norm
 
 V = tuple  # value trees are tuples: (kind, ...)
 
+import json as _json
+import os as _os
+
+_KNOWN = None
+
+
+def known_functions() -> set:
+    global _KNOWN
+    if _KNOWN is None:
+        path = _os.path.join(_os.path.dirname(_os.path.abspath(__file__)), "tables", "known_functions.json")
+        try:
+            with open(path) as fh:
+                _KNOWN = set(_json.load(fh)["functions"])
+        except OSError:
+            _KNOWN = set()
+    return _KNOWN
+
+
+def is_new_helper(key: str) -> bool:
+    """A function that does not exist on the reference tree: a helper extracted later -> transparent for the rules."""
+    return bool(known_functions()) and key not in known_functions()
+
 
 def const(v) -> V:
     return ("const", v)
@@ -86,7 +108,7 @@ class Sim:
         self.args = args or {}
         self.max_paths = max_paths
         self.exc = ExcTable(prog)
-        self.inline = inline
+        self.inline = inline if inline is not None else is_new_helper
         self.loop_iters = loop_iters
         self.raises = raises  # callee name, call value -> exception classes the call may raise (forked)
 
@@ -294,6 +316,10 @@ class _Run:
             if isinstance(v, tuple) and v and v[0] == "tuple" and len(v[1]) == len(t.elts):
                 for e, x in zip(t.elts, v[1]):
                     self.assign(e, x, env, node)
+            elif isinstance(v, tuple) and v and v[0] == "sub" and isinstance(v[2], tuple) and v[2][0] == "slice" and is_const(v[2][1]) and isinstance(v[2][1][1], int) and v[2][2] is None and v[2][3] is None:
+                # a, b = X[k:]   ->   items k, k+1 of X
+                for i, e in enumerate(t.elts):
+                    self.assign(e, ("item", v[1], i + v[2][1][1]), env, node)
             else:
                 for i, e in enumerate(t.elts):
                     self.assign(e, ("item", v, i), env, node)
@@ -546,6 +572,8 @@ class _Run:
         f = self.eval(e.func, env)
         args = tuple(self.eval(a, env) for a in e.args)
         kws = tuple((k.arg, self.eval(k.value, env)) for k in e.keywords)
+        if f[0] == "ext" and f[1] in ("any", "all") and len(e.args) == 1 and isinstance(e.args[0], (ast.GeneratorExp, ast.ListComp)) and len(e.args[0].generators) == 1:
+            return self.quantifier(f[1], e.args[0], env)
         self.site += 1
         callee = self.callee_name(f)
         recv = f[1] if f[0] == "attr" else None
@@ -565,24 +593,68 @@ class _Run:
                     self.path.decisions.append(("%s raises" % callee, cls))
                     ev["raised"] = cls
                     raise _Raise(cls, e)
-        # raising helper modelled explicitly when the caller asked for it
-        if self.sim.inline is not None and f[0] == "func" and self.sim.inline(f[1]):
-            return self.inline_call(f[1], args, kws, e)
+        # transparent helpers are inlined
+        if self.sim.inline is not None:
+            if f[0] == "func" and self.sim.inline(f[1]):
+                self.path.events.pop()
+                return self.inline_call(f[1], args, kws, e, None)
+            if f[0] == "attr":
+                target = self._method_target(f[1], f[2])
+                if target is not None and self.sim.inline(target.key):
+                    self.path.events.pop()
+                    return self.inline_call(target.key, args, kws, e, f[1])
         return v
 
-    def inline_call(self, key, args, kws, node) -> V:
+    def _method_target(self, recv: V, name: str):
+        fi = self.fstack[-1]
+        if recv[0] == "param" and fi.cls is not None and fi.params and recv[1] == fi.params[0] and fi.kind in ("method", "property"):
+            return self.prog.resolve_method(fi.cls.name, name)
+        cands = [f for k, f in self.prog.funcs.items() if k.endswith("." + name) and f.cls is not None]
+        if len(cands) == 1:
+            return cands[0]
+        return None
+
+    def quantifier(self, kind: str, comp, env) -> V:
+        """any(...) / all(...) over a generator: unrolled like a loop (same iteration counts as loops)."""
+        g = comp.generators[0]
+        it = self.eval(g.iter, env)
+        iters = self.sim.loop_iters
+        lineno = getattr(comp, "lineno", 0)
+        k = iters[self.choose(len(iters), "%s@%d" % (kind, lineno))] if len(iters) > 1 else iters[0]
+        self.path.decisions.append(("loop@%d iterations" % lineno, k))
+        parts = []
+        for i in range(k):
+            env2 = dict(env)
+            self.assign(g.target, ("iter", it, lineno, i), env2, comp)
+            self.ev("loop-iter", node=comp, it=it, index=i)
+            conds = [self.eval(c, env2) for c in g.ifs]
+            elt = self.eval(comp.elt, env2)
+            if kind == "any":
+                parts.append(("boolop", "And", tuple(conds + [elt])) if conds else elt)
+            else:
+                parts.append(("boolop", "Or", tuple([("un", "Not", c) for c in conds] + [elt])) if conds else elt)
+        if not parts:
+            return const(kind == "all")
+        if len(parts) == 1:
+            return self.fold(parts[0])
+        return self.fold(("boolop", "Or" if kind == "any" else "And", tuple(parts)))
+
+    def inline_call(self, key, args, kws, node, recv=None) -> V:
         fi = self.prog.func(key)
         if len(self.fstack) > 6:
             raise AnalysisError("inlining too deep at %s" % key)
         env: Dict[str, V] = {}
         params = fi.params
-        if fi.kind in ("method", "property"):
-            raise AnalysisError("inlining of bound methods is not supported (%s)" % key)
+        if fi.kind in ("method", "property", "classmethod"):
+            if recv is None:
+                raise AnalysisError("cannot inline %s without a receiver" % key)
+            env[params[0]] = recv
+            params = params[1:]
         for p, a in zip(params, args):
             env[p] = a
         for k, v in kws:
             env[k] = v
-        for p in params:
+        for p in fi.params:
             if p not in env:
                 d = fi.defaults().get(p)
                 env[p] = self.eval(d, {}) if d is not None else ("param", p)
